@@ -486,6 +486,41 @@ def d_function_overloads_and_value_info(m):
 
 
 @_dev
+def d_function_with_subgraph(m):
+    """A model-local function whose body holds an If: both branches capture function-body values and
+    carry their own value_info; the function-body value is typed through FunctionProto.value_info
+    (IR >= 10) or through the experimental '<domain>::<name>/<value>' main-graph entry (IR < 10)."""
+    op = m.opset_import.add()
+    op.domain, op.version = "local", 1
+    f = m.functions.add()
+    f.name, f.domain = "H", "local"
+    f.input.extend(["hx", "hc"])
+    f.output.extend(["ho"])
+    fo = f.opset_import.add()
+    fo.domain, fo.version = "", 20
+    then_g = onnx.GraphProto(name="h_then")
+    then_g.node.add().CopyFrom(node("Add", ["ht", "hx"], ["h_then_o"], "h_then_add"))
+    then_g.output.add().CopyFrom(value_info("h_then_o", tensor_type(TP.FLOAT, _shape_variants()[3])))
+    else_g = onnx.GraphProto(name="h_else")
+    else_g.node.add().CopyFrom(node("Relu", ["ht"], ["h_else_t"], "h_else_relu"))
+    else_g.node.add().CopyFrom(node("Neg", ["h_else_t"], ["h_else_o"], "h_else_neg"))
+    else_g.value_info.add().CopyFrom(value_info("h_else_t", tensor_type(TP.DOUBLE, _shape_variants()[1]), "inner doc"))
+    else_g.output.add().CopyFrom(value_info("h_else_o", F()))
+    a1 = onnx.AttributeProto(name="then_branch", type=onnx.AttributeProto.GRAPH)
+    a1.g.CopyFrom(then_g)
+    a2 = onnx.AttributeProto(name="else_branch", type=onnx.AttributeProto.GRAPH)
+    a2.g.CopyFrom(else_g)
+    f.node.add().CopyFrom(node("Neg", ["hx"], ["ht"], "h_neg"))
+    f.node.add().CopyFrom(node("If", ["hc"], ["ho"], "h_if", attrs=[a1, a2]))
+    if m.ir_version >= 10:
+        f.value_info.add().CopyFrom(value_info("ht", F(_shape_variants()[2]), "fn body doc"))
+    else:
+        m.graph.value_info.add().CopyFrom(value_info("local::H/ht", F(_shape_variants()[2]), "fn body doc"))
+    m.graph.node.add().CopyFrom(node("H", ["b", "c"], ["h_out"], "n_h", domain="local"))
+    m.graph.output.add().CopyFrom(value_info("h_out", F()))
+
+
+@_dev
 def d_unsorted_nodes(m):
     n0, n1 = onnx.NodeProto(), onnx.NodeProto()
     n0.CopyFrom(m.graph.node[0])
@@ -569,7 +604,7 @@ def gen_models(tier, pairs=False):
     for v in versions:
         yield f"baseline@{v}", baseline(v)
     for name, fn in DEVIATIONS:
-        vs = versions if name in ("function_overloads_and_value_info", "device_configurations", "function_with_attributes") else [10]
+        vs = versions if name in ("function_overloads_and_value_info", "device_configurations", "function_with_attributes", "function_with_subgraph") else [10]
         if name == "function_overloads_and_value_info":
             vs = [v for v in vs if v >= 10]  # FunctionProto.overload exists from IR version 10
         for v in vs:
